@@ -85,7 +85,35 @@ def extract (d : D) (id : Nat) : Option (List Nat) :=
   | some syms => some (d.g.expand syms)
   | none => none
 
+/-- `IteratorDictStringRPDAC`: `next` increments `processed`, reads the sequence at that position through the
+DAC and expands it — what `extract(processed)` does. -/
+structure SIter where
+  processed : Nat
+  scanneable : Nat
+
+def iterNext (d : D) (it : SIter) : Option (List Nat × SIter) :=
+  match d.seqs[it.processed]? with
+  | some syms => some (d.g.expand syms, { it with processed := it.processed + 1 })
+  | none => none                                   -- `C->access` past the list
+
+def drain (d : D) : Nat → SIter → Option (List (List Nat))
+  | 0, _ => some []
+  | fuel + 1, it =>
+    if it.processed < it.scanneable then
+      match iterNext d it with
+      | none => none
+      | some (s, it') =>
+        match drain d fuel it' with
+        | some l => some (s :: l)
+        | none => none
+    else some []
+
+/-- `StringDictionaryRPDAC::extractTable`: `IteratorDictStringRPDAC(G, terminals, Cdac, 0, elements, maxlength)`. -/
+def extractTable (d : D) : Option (List (List Nat)) :=
+  drain d d.seqs.length { processed := 0, scanneable := d.seqs.length }
+
 end CSD.RPDAC
+
 
 namespace CSD.RPDAC
 open CSD.RePair
